@@ -231,18 +231,23 @@ pub fn check_case(case: &Case, macros: &Mutex<MacroAlphabets>, tier: Tier) -> Op
     let mut plan_note = String::new();
     let mut planned = false;
     cfg.tail_points = if tier == Tier::Quick { 2 } else { 4 };
+    cfg.verify_points = if tier == Tier::Quick { 128 } else { 256 };
     cfg.exec_budget = if tier == Tier::Quick { 120_000_000 } else { 1_500_000_000 };
     let deep_quick = tier == Tier::Quick && vlevels >= 4;
     let mut done: Option<(Explorer, Res)> = None;
     let mut extra_execs = 0u64;
-    if vlevels >= 3 && !pilot_cut && std::env::var("VERIF_SIZES").is_err() && std::env::var("VERIF_NOPLAN").is_err() {
+    if vlevels >= plan_min_levels() && !pilot_cut && std::env::var("VERIF_SIZES").is_err() && std::env::var("VERIF_NOPLAN").is_err() {
         // Planned sizes, scaled to a time target by measurement: every iteration is a complete exploration;
         // the time per modelled child of one iteration sets the budget of the next; the last completed one is used.
         let target: f64 = std::env::var("VERIF_TARGET").ok().and_then(|v| v.parse().ok()).unwrap_or(if tier == Tier::Quick { 3.0 } else { 60.0 });
         let mut last_model_err = 1.0;
         let mut plan_cut = false;
-        let plan_deadline = t0 + if tier == Tier::Quick { case_cap / 4 } else { case_cap / 2 };
-        let mut budget = 5.0e4;
+        // two-level trees: the first iteration is the old fixed-table exploration in all but name and may use the whole
+        // cap; refinements must fit into the plan share
+        let plan_share = t0 + if tier == Tier::Quick { case_cap / 4 } else { case_cap / 2 };
+        let plan_deadline = if vlevels == 2 { t0 + case_cap } else { plan_share };
+        // two-level trees start from the budget of the fixed table (a plan is never coarser than the table was)
+        let mut budget = if vlevels == 2 { if tier == Tier::Quick { 4.0e5 } else { 5.2e6 } } else { 5.0e4 };
         let mut reach_now = reach.clone();
         for _iter in 0..5 {
             let mut plan = plan_sizes(&reach_now, vlevels as usize, budget, cfg.tail_points);
@@ -285,7 +290,7 @@ pub fn check_case(case: &Case, macros: &Mutex<MacroAlphabets>, tier: Tier) -> Op
             last_model_err = plan.model_err;
             let tpc = el.max(1e-4) / plan.model_cost.max(1.0);
             let nb = 0.6 * target / tpc;
-            let left = plan_deadline.saturating_duration_since(std::time::Instant::now()).as_secs_f64();
+            let left = plan_share.saturating_duration_since(std::time::Instant::now()).as_secs_f64();
             if nb < budget * 1.5 || left < 0.8 * target {
                 break;
             }
@@ -362,7 +367,9 @@ pub fn check_case(case: &Case, macros: &Mutex<MacroAlphabets>, tier: Tier) -> Op
         let f32_gran = if is32 { 2f64.powi(-22) } else { 0.0 };
         let floor = if vlevels >= 2 {
             let n1 = ex.cfg.lattice.get(1).cloned().unwrap_or(64);
-            if n1 == 0 { 0.0 } else if planned { ex.reach[1].min(1.0) / n1 as f64 } else { 1.0 / n1 as f64 }
+            // planned runs: the cell mass weighted with the measured reach of that level, but never below 5e-4 (bands
+            // narrower than 1/K of a run of a subdivided word stay invisible; see DESIGN 11.11)
+            if n1 == 0 { 5e-4 } else if planned { (ex.reach[1].min(1.0) / n1 as f64).max(5e-4) } else { 1.0 / n1 as f64 }
         } else { 0.0 };
         let abs_gran = if case.abs_gran > 0.0 { (cdf(t + case.abs_gran) - cdf(t - case.abs_gran)).abs() } else { 0.0 };
         let tol = e + res.resid + res.bad + gran + abs_gran + tref + f32_gran + floor + 1e-12;
@@ -390,4 +397,8 @@ pub fn outcome_json(o: &LawOutcome) -> Value {
     json!({"case": o.label, "judged": o.judged, "ok": o.ok, "max_abs_dev": o.max_abs_dev, "worst_dev_over_tol": o.worst_ratio, "worst_dev": o.worst_dev, "worst_tol": o.worst_tol,
         "worst_at": o.worst_at, "resid": o.resid, "bad_mass": o.bad, "expected_words": o.words, "value_levels": o.vlevels, "executions": o.cnt.execs, "nodes": o.cnt.nodes, "edges": o.cnt.edges,
         "leaves": o.cnt.leaves, "restarts": o.cnt.restarts, "memo_hits": o.cnt.memo_hits, "boundaries": o.cnt.boundaries, "note": o.note, "wall_s": o.wall_s})
+}
+
+fn plan_min_levels() -> u8 {
+    std::env::var("VERIF_PLAN_MIN").ok().and_then(|v| v.parse().ok()).unwrap_or(3)
 }
